@@ -1,41 +1,50 @@
 #!/venv/bin/python
-"""tools/mutant.py <dir-with-patch.diff-and-demo.py> [--checks C11,C03] [--tier quick] [--no-confirm]
-Confirms a seeded change (suite passes with it, demo 0 on HEAD / 1 with patch) and runs the named checks against it.
-/repo is restored afterwards (git checkout -- .)."""
+"""tools/mutant.py <seeded dir> [--checks C11,C03] [--tier quick] [--no-confirm] [--meta]
+Confirms a seeded change in a scratch git worktree of /repo's HEAD (suite passes with it, demo exits 0 on HEAD and 1 with the
+patch) and runs the named checks against that worktree (VERIF_REPO).  /repo itself is never touched; the worktree is removed."""
 import argparse, json, os, shutil, subprocess, sys, time
-ap = argparse.ArgumentParser(); ap.add_argument("dir"); ap.add_argument("--checks", default=""); ap.add_argument("--tier", default="quick"); ap.add_argument("--no-confirm", action="store_true")
+ap = argparse.ArgumentParser(); ap.add_argument("dir"); ap.add_argument("--checks", default=""); ap.add_argument("--tier", default="quick")
+ap.add_argument("--no-confirm", action="store_true"); ap.add_argument("--meta", action="store_true")
 a = ap.parse_args()
 d = os.path.abspath(a.dir); patch = os.path.join(d, "patch.diff"); demo = os.path.join(d, "demo.py")
-def sh(cmd, cwd="/repo", env=None):
+wt = "/tmp/wt/m-%d" % os.getpid()
+def sh(cmd, cwd=wt, env=None):
     e = dict(os.environ); e.update(env or {})
     p = subprocess.run(cmd, shell=True, cwd=cwd, env=e, stdout=subprocess.PIPE, stderr=subprocess.STDOUT, text=True)
     return p.returncode, p.stdout
-rc, out = sh("git status --porcelain -- mathy_core")
-if out.strip(): sys.exit("/repo/mathy_core is dirty: " + out)
-res = {"dir": d}
+os.makedirs("/tmp/wt", exist_ok=True)
+rc, out = sh("git worktree add -q --detach %s HEAD" % wt, cwd="/repo")
+if rc: sys.exit("cannot create worktree: " + out)
+res = {"dir": d, "repo_head": sh("git rev-parse --short HEAD")[1].strip()}
 def rundemo():
-    shutil.copy(demo, "/repo/_demo_tmp.py")
+    shutil.copy(demo, os.path.join(wt, "_demo_tmp.py"))
     try: return sh("PYTHONPATH=. /venv/bin/python _demo_tmp.py")[0]
-    finally: os.remove("/repo/_demo_tmp.py")
+    finally: os.remove(os.path.join(wt, "_demo_tmp.py"))
 try:
     if not a.no_confirm: res["demo_head"] = rundemo()
     rc, out = sh("git apply " + patch)
     if rc:
         rc, out = sh("patch -p1 -F3 --no-backup-if-mismatch < " + patch)
         res["applied_with_fuzz"] = True
-    if rc:
-        sh("git checkout -- . ; git clean -fdq -- mathy_core")
-        sys.exit("patch does not apply: " + out)
+    if rc: sys.exit("patch does not apply: " + out)
     if not a.no_confirm:
         res["demo_patched"] = rundemo()
-        rc, out = sh("/venv/bin/python -m pytest -q -p no:cacheprovider --timeout=900 -x 2>&1 | tail -3")
+        rc, out = sh("/venv/bin/python -m pytest -q -p no:cacheprovider --timeout=900 2>&1 | tail -3")
         res["suite"] = out.strip().splitlines()[-1] if out.strip() else ""
     res["checks"] = {}
     for c in [c for c in a.checks.split(",") if c]:
         t0 = time.time()
-        rc, out = sh("./check %s --tier %s" % (c, a.tier), cwd="/verif")
+        rc, out = sh("./check %s --tier %s" % (c, a.tier), cwd="/verif", env={"VERIF_REPO": wt})
         viol = [l for l in out.splitlines() if l.startswith("VIOLATION")]
-        res["checks"][c] = {"rc": rc, "violations": viol[:6], "n_viol": len(viol), "s": round(time.time() - t0, 1), "tail": out.strip().splitlines()[-1:] }
+        res["checks"][c] = {"rc": rc, "n_viol": len(viol), "first": [v[:300] for v in viol[:2]], "s": round(time.time() - t0, 1)}
 finally:
-    sh("git checkout -- . ; git clean -fdq -- mathy_core")
+    sh("git worktree remove --force %s" % wt, cwd="/repo")
+if a.meta:
+    mp = os.path.join(d, "meta.json")
+    meta = json.load(open(mp)) if os.path.exists(mp) else {}
+    meta.setdefault("results", {})
+    meta["confirmed"] = {k: res.get(k) for k in ("repo_head", "demo_head", "demo_patched", "suite", "applied_with_fuzz") if k in res} or meta.get("confirmed")
+    for c, r in res["checks"].items():
+        meta["results"]["%s/%s" % (c, a.tier)] = r
+    json.dump(meta, open(mp, "w"), indent=1)
 print(json.dumps(res, indent=1))
